@@ -29,6 +29,8 @@ Docs == <<
   [lines |-> <<F(3,0,5), BL, F(3,0,4), H(1)>>, term |-> FALSE],
   \* a value with a BLANK continuation line (blanks only) in the middle: it may stay or go, the paragraph must not be cut
   [lines |-> <<F(3,0,1), C(0,0), C(0,2), F(1,0,3)>>, term |-> TRUE],
+  \* an EMPTY first line, then a blank continuation line, then the text lines (several leading blanks / line breaks to strip)
+  [lines |-> <<F(2,1,0), C(0,0), C(1,1), C(0,2), F(1,0,3)>>, term |-> TRUE],
   \* the same field (name AND value) twice, apart, with a third of that name: sorting brings them together
   [lines |-> <<F(3,0,1), F(2,0,1), F(1,0,2), F(2,0,1), F(2,0,3)>>, term |-> TRUE]
 >>
